@@ -1706,6 +1706,13 @@ class Explorer(_BaseCtx):
                     return True
             except (Unsupported, z3.Z3Exception):
                 pass
+        if r == z3.unknown and self._congruence_lemmas(fs):
+            # equalities between applications of the same uninterpreted function whose arguments were proved equal by
+            # cross-multiplication have been added as lemmas: ask again
+            r, m = self._check(z3.Not(fs))
+            if r == z3.unsat:
+                self._sample(label, f, "unsat(congruence lemmas)")
+                return True
         if r == z3.unknown:
             r2, m2 = self._retry_unknown(fs)
             if r2 == z3.unsat:
@@ -1749,6 +1756,44 @@ class Explorer(_BaseCtx):
         self.violations.append(dict(kind="obligation", label=label, model=self.model_dict(m), decisions=list(self.trace),
                                     formula=str(f)[:2000], alt_models=alt))
         return False
+
+    def _congruence_lemmas(self, fs, max_pairs=24):
+        """For pairs F(a..), F(b..) of applications of one uninterpreted function occurring in ``fs``: if every a_i == b_i is
+        implied by the path condition (checked through the cross-multiplied sufficient condition), add F(a..) == F(b..) to the
+        solver.  Sound (each lemma is a consequence of the path condition); returns whether a lemma was added."""
+        from symgem.diff import cross_equal
+
+        apps, todo, seen = {}, [fs], set()
+        while todo and len(seen) < 6000:
+            u = todo.pop()
+            if u.get_id() in seen:
+                continue
+            seen.add(u.get_id())
+            if z3.is_app(u):
+                if u.decl().kind() == z3.Z3_OP_UNINTERPRETED and u.num_args() > 0:
+                    apps.setdefault(u.decl().name(), {})[u.get_id()] = u
+                todo.extend(u.children())
+        added, tried = False, 0
+        self.solver.set("timeout", max(2000, self.query_timeout_ms // 5))
+        try:
+            for group in apps.values():
+                terms = list(group.values())
+                for i in range(len(terms)):
+                    for j in range(i + 1, len(terms)):
+                        if tried >= max_pairs:
+                            return added
+                        tried += 1
+                        a, b = terms[i], terms[j]
+                        try:
+                            conds = [cross_equal(SymReal(x), SymReal(y)) for x, y in zip(a.children(), b.children()) if not x.eq(y)]
+                        except (Unsupported, z3.Z3Exception):
+                            continue
+                        if all(self._check(z3.Not(c))[0] == z3.unsat for c in conds):
+                            self.add_axiom(a == b)
+                            added = True
+        finally:
+            self.solver.set("timeout", self.query_timeout_ms)
+        return added
 
     def _retry_unknown(self, fs):
         """Second attempt: is ``pc and not fs`` satisfiable?  Fresh QF_NRA solver (nlsat), three times the time budget."""
